@@ -237,6 +237,6 @@ pub fn judge(input: &[u8], acc: &mut Acc) {
 }
 
 pub fn run(run: &Run) {
-    run.explore(&u2::tlv_byte_universe(run.tier.pick(9, 11)));
+    run.explore(&u2::tlv_byte_universe(run.tier.pick(10, 12)));
     run.explore(&u2::tlv_structured_universe(run.tier == Tier::Thorough));
 }
